@@ -148,7 +148,7 @@ def run_config(prop, cfg, tier, seed):
                     o2 = find(r2) if r2 is not None else None
                     vals.append(float.fromhex(o2[4]) if o2 is not None else float('nan'))
                 fd = (vals[0] - vals[1]) / (2 * h); jac = float.fromhex(o0[3]); sc = float.fromhex(o0[5])
-                p['confirmed'] = (fd == fd) and abs(fd - jac) > 1e-5 * max(1.0, sc)
+                p['confirmed'] = (fd == fd) and abs(fd - jac) > 1e-4 * max(1.0, abs(jac))   # finite-difference error is ~1e-9 here; sc is the solver-side tolerance scale, not used
                 p['replay_observed'] = 'differentiate gives %r, central finite difference of evaluate gives %r' % (jac, fd)
         else:
             occ = 0; found = None
